@@ -57,8 +57,8 @@ Full statement / proved / missing
                                    `NewEnumType`.  Arity lemmas per type name: `C06_arity_*`, `C06_not_parameterized`,
                                    `C06_unknown_name`, `C06_non_type`.
                                    `outside` (no claim): constructor calls, `Init[…]`, `Like`, `Object[…]`, `TypeSet[…]`,
-                                   `Timespan/Timestamp/SemVer/SemVerRange/URI[…]`, names the loader may know, `type X = …`,
-                                   non-ASCII Enum values — for these the property is checked on the implementation only
+                                   `Timespan/Timestamp/SemVer/SemVerRange/URI[…]`, names the loader may know, `type X = …`
+                                   — for these the property is checked on the implementation only
                                    (direct predicate of harness/c06: type or reported error, never a Go fault).
 * not provable in this model: stack exhaustion on very deep nestings (a resource of the Go runtime).
 -/
